@@ -135,11 +135,27 @@ def verdict_is_used(body, site):
 
 
 def unwrap_not(e):
+    """strip negations: `!x`, `x == false`, `x != true` (and the non-negating `x == true`, `x != false`)"""
     neg = False
-    while e[0] == "un" and e[1] == "Not":
-        neg = not neg
-        e = e[2]
-    return e, neg
+    while True:
+        if e[0] == "un" and e[1] == "Not":
+            neg = not neg
+            e = e[2]
+            continue
+        if e[0] == "bin" and e[1] in ("Eq", "Ne"):
+            a, b = e[2], e[3]
+            for x, c in ((a, b), (b, a)):
+                if c[0] == "const" and c[1] in (0, 1) and (c[2] in ("true", "false")):
+                    is_true = c[1] == 1
+                    flips = (e[1] == "Eq") != is_true     # x == false, x != true
+                    if flips:
+                        neg = not neg
+                    e = x
+                    break
+            else:
+                return e, neg
+            continue
+        return e, neg
 
 
 def bool_switch_edges(body, ch, pred):
